@@ -541,11 +541,18 @@ theorem invO_refines (db : DB) (sc : List Uid) (lim : Bool) (r : Compiled) (t : 
 
 /-! ### the ordered fragment -/
 
-/-- row-level pipeline, optionally one `arrange`, then `select` / `rename` / element-wise `mutate`, optionally a
+/-- the pipeline below compiles and satisfies the invariant of the row-level fragment (given by `frag_refines` for the row-level
+    fragment and by `C06.jfrag_refines` for joins of source tables followed by row-level verbs) -/
+def Refines (c : Ast) (sc : List Uid) : Prop :=
+  ∀ (db : DB) (needed : Needed), ∃ r n', compile c needed = .ok (r, n') ∧ Inv db sc r (Spec.run db c)
+
+theorem Frag.refines {c : Ast} {sc : List Uid} (h : Frag c sc) : Refines c sc := fun db needed => frag_refines h db needed
+
+/-- a base pipeline (`Refines`), optionally one `arrange`, then `select` / `rename` / element-wise `mutate`, optionally a
     `slice_head` (and again shape verbs).  The Bool says whether a LIMIT has been set. -/
 inductive OFrag : Ast → List Uid → Bool → Prop
-  | base {c sc} : Frag c sc → OFrag c sc false
-  | arrange {c sc} (i : NodeId) (ords : List Ord) : Frag c sc → isEwiseOrds ords = true →
+  | base {c sc} : Refines c sc → OFrag c sc false
+  | arrange {c sc} (i : NodeId) (ords : List Ord) : Refines c sc → isEwiseOrds ords = true →
       (∀ u ∈ Expr.uidsList (ords.map (·.1)), u ∈ sc) → OFrag (.arrange i c ords) sc false
   | select {c sc lim} (i : NodeId) (cols : List (Uid × ColMeta)) : OFrag c sc lim →
       (∀ db, ∀ cu ∈ cols, ∃ e ∈ (Spec.run db c).visible, e.2 = cu.1) → OFrag (.select i c cols) sc lim
@@ -561,9 +568,9 @@ theorem ofrag_inv {ast : Ast} {sc : List Uid} {lim : Bool} (h : OFrag ast sc lim
   induction h with
   | base hf =>
     intro needed
-    obtain ⟨r, n', hc, inv⟩ := frag_refines hf db needed
+    obtain ⟨r, n', hc, inv⟩ := hf db needed
     exact ⟨r, n', hc, inv_to_invO db _ r _ inv⟩
-  | arrange i ords hf he hu => exact arrange_invO db _ i _ ords he hu (frag_refines hf db)
+  | arrange i ords hf he hu => exact arrange_invO db _ i _ ords he hu (hf db)
   | select i cols _ hsel ih => exact select_invO db _ _ i _ cols (hsel db) ih
   | rename i m _ ih => exact rename_invO db _ _ i _ m ih
   | mutate i L metas _ hv hu hfresh hnd ih => exact mutate_invO db _ _ i _ L metas hv hu hfresh hnd ih
